@@ -421,11 +421,13 @@ class Ctx:
             'wall_s': round(time.time() - self.t0, 2),
             'violations': nviol,
         }
-        os.makedirs(os.path.join(VERIF, 'evidence'), exist_ok=True)
-        tmp = os.path.join(VERIF, 'evidence', '%s.json.tmp%d' % (self.prop, os.getpid()))
+        # evidence/ only ever describes runs against /repo itself; a run against another tree (VERIF_REPO, used to evaluate seeded changes) writes elsewhere
+        edir = os.path.join(VERIF, 'evidence') if os.path.realpath(REPO) == '/repo' else os.path.join(VERIF, 'scratch', 'evidence_other_tree')
+        os.makedirs(edir, exist_ok=True)
+        tmp = os.path.join(edir, '%s.json.tmp%d' % (self.prop, os.getpid()))
         with open(tmp, 'w') as f:
             json.dump(ev, f, indent=1, default=repr)
-        os.replace(tmp, os.path.join(VERIF, 'evidence', '%s.json' % self.prop))
+        os.replace(tmp, os.path.join(edir, '%s.json' % self.prop))
 
 
 def load_known():
